@@ -106,3 +106,24 @@ Example C04_pytree_pass_idempotent_nonvacuous :
   exists s', leafmatch [] (LPyTree (LArr (AC None "?a b")) (Some "T")) x s = (Acc, s') /\ ps_stack s' <> ps_stack s /\
              leafmatch [] (LPyTree (LArr (AC None "?a b")) (Some "T")) x s' = (Acc, s').
 Proof. eexists. split; [vm_compute; reflexivity|]. split; [discriminate | vm_compute; reflexivity]. Qed.
+
+(* the snapshot / roll-back wrapper at the end of _MetaAbstractArray.__instancecheck_str__, AS REGENERATED FROM THE SOURCE on
+   every run (gen/StorageSrc.v, interpreted by model/SL.v): whatever cls._check_shape does to the store (`ext` is an arbitrary
+   function), a non-empty message or ANY exception leaves the frame the check started from on top; the empty message keeps
+   what the shape check bound *)
+From JT Require Import model.SL gen.StorageSrc proofs.SLFacts.
+Theorem C04_array_rollback_wrapper_as_in_source : forall ext cls obj s,
+  wf_top s ->
+  exists args,
+    let '(r1, s1) := ext "_check_shape" args s in
+    exists r' s', run_ext ext rollback_src "array_tail" [cls; obj] s = Some (r', s') /\
+      match r1 with
+      | SRExn x => r' = SRExn x /\ abs_store s' = set_top (abs_store s1) (top_frame (abs_store s))
+      | SRVal v => match array_ok v with
+                   | Some true => r' = SRVal v /\ s' = s1
+                   | Some false => r' = SRVal v /\ abs_store s' = set_top (abs_store s1) (top_frame (abs_store s))
+                   | None => r' = SRExn XOther
+                   end
+      end.
+Proof. exact (fun ext cls obj s W => rollback_wrappers_as_in_source ext cls obj s true W). Qed.
+Print Assumptions C04_array_rollback_wrapper_as_in_source.
